@@ -243,7 +243,7 @@ class _Console:
 
 
 def env(fs):
-    return shadowed(rio, (), extra={"open": fs.open, "os": fs.os_ns(), "console": _Console})
+    return shadowed(rio, ("int", "float", "round"), extra={"open": fs.open, "os": fs.os_ns(), "console": _Console})
 
 
 DATA = "/nonexistent-verif/corpus/documents.json"
@@ -281,7 +281,10 @@ def table_build_and_seek(sl):
     fs.data[DATA] = df
     state = sl["initial"]
     if state == "stale":
-        fs.files[TABLE] = {"text": "50000;1\n100000;2\n", "mtime": df.mtime - 10}
+        # older than the data file by ANY positive amount of time (also a fraction of a second)
+        age = core.fresh_real("stale_table_older_than_the_data_file_by", 0)
+        core.assume(age > 0)
+        fs.files[TABLE] = {"text": "50000;1\n100000;2\n", "mtime": df.mtime - age}
     elif state == "garbage-newer-tmp":
         fs.files[TABLE + ".tmp"] = {"text": "50000;12", "mtime": df.mtime + 10}
     with env(fs):
@@ -298,6 +301,25 @@ def table_build_and_seek(sl):
     target = TARGETS[concrete(fresh_int("target_choice", 0, len(TARGETS) - 1))]
     core.trace("target", target)
     check_seek(fs, df, target)
+
+
+def table_validity(sl):
+    """FileOffsetTable.is_valid: exactly 'the table exists and is not older than the data file' for arbitrary modification times"""
+    fs = FS()
+    df = DataFile(10, {})
+    df.mtime = core.fresh_real("data_file_mtime", 0)
+    fs.data[DATA] = df
+    exists = bool(core.fresh_bool("table_exists"))
+    tm = core.fresh_real("table_mtime", 0)
+    if exists:
+        fs.files[TABLE] = {"text": "", "mtime": tm}
+    with env(fs):
+        valid = rio.FileOffsetTable.read_for_data_file(DATA).is_valid()
+    core.trace("exists", exists)
+    if not exists:
+        observe("no table is never valid", not valid)
+    else:
+        observe("a table is valid iff it is not older than the data file (by however little)", bool(valid) == bool(tm >= df.mtime))
 
 
 def table_crash_points(sl):
